@@ -33,7 +33,7 @@ def msg_region(actor, variant):
 
 
 def kind_subregions(actor, R, msg_variant):
-    """split region R (handler of msg_variant) by a nested pattern on the message's `kind`:
+    """split region R (handler of msg_variant) by a pattern on the message's `kind` (nested pattern, or an inner `match kind` on the bound field):
     {'Build': blocks, 'Service': blocks} or {'*': R} when the handler is generic in the kind"""
     out = {}
     for k in ("Build", "Service"):
@@ -41,7 +41,10 @@ def kind_subregions(actor, R, msg_variant):
             if not (l[0] == "variant" and l[1] and path_ends(l[1], "ExecutionKind") and l[2] == (k,)):
                 return False
             on = l[3]
-            return bool(on) and any(pr["k"] == "downcast" and pr["variant"] == msg_variant for pr in on["proj"]) and "kind" in place_fields(on)
+            if on and any(pr["k"] == "downcast" and pr["variant"] == msg_variant for pr in on["proj"]) and "kind" in place_fields(on):
+                return True
+            # `match kind {..}` on the variable bound to the message's field
+            return origin_matches(edge_origin(actor, e), lambda o: o[0] == "field" and o[1] and o[1][-1] == "kind" and msg_variant in o[1], through_fields=False)
         rk = actor.region(p, within=R)
         if rk:
             out[k] = rk & R
@@ -227,24 +230,48 @@ def path_facts(body, path):
     return out
 
 
-def ret_origins(body, path, start=0):
-    ret = []
-    for bb in [start] + [e.dst for e in path]:
-        for st in body.stmts(bb):
-            if st["lhs"]["local"] == 0 and not st["lhs"]["proj"]:
-                rv = st["rv"]
-                if rv["k"] == "use" and rv["op"]["k"] == "const":
-                    ret = [("const", rv["op"]["val"])]
-                elif rv["k"] == "use" and not [p for p in rv["op"]["place"]["proj"] if p["k"] != "deref"]:
-                    ret = origins(body, rv["op"]["place"]["local"])
-                elif rv["k"] == "agg" and "adt" in rv:
-                    ret = [("agg", rv["adt"], rv["variant"], bb, st)]
-                else:
-                    ret = rv_origins(body, rv, bb, st) or [("expr", bb)]
+def _last_def_on_path(body, blocks, local, upto):
+    """(kind, payload, index in blocks) of the last definition of `local` in blocks[:upto+1] (statements of later index win), or None"""
+    for i in range(upto, -1, -1):
+        bb = blocks[i]
         t = body.term(bb)
-        if t["k"] == "call" and t["dest"]["local"] == 0 and not t["dest"]["proj"] and t["callee"]:
-            ret = [("call", callee_base(t), bb, t)]
-    return ret
+        if t["k"] == "call" and t["dest"]["local"] == local and not t["dest"]["proj"] and i < upto + 1 and (i < len(blocks) - 1 or True):
+            # the call's destination is written when the call returns, i.e. after the block's statements
+            if i <= upto:
+                return ("call", t, i)
+        for st in reversed(body.stmts(bb)):
+            if st["lhs"]["local"] == local and not st["lhs"]["proj"]:
+                return ("assign", st, i)
+    return None
+
+
+def path_origins(body, blocks, local, upto, depth=0):
+    """origins of `local` as defined along the path (block list) up to index `upto`: follows plain copies path-sensitively, then falls back to
+    the flow-insensitive origins of the first non-copy definition"""
+    if depth > 10:
+        return origins(body, local)
+    d = _last_def_on_path(body, blocks, local, upto)
+    if d is None:
+        return origins(body, local)
+    kind, x, i = d
+    if kind == "call":
+        if x["callee"] and callee_base(x).endswith("ops::Not>::not") and x["args"] and operand_local(x["args"][0]) is not None:
+            return [("not", tuple(path_origins(body, blocks, operand_local(x["args"][0]), i, depth + 1)))]
+        return [("call", callee_base(x), blocks[i], x)] if x["callee"] else []
+    rv = x["rv"]
+    if rv["k"] == "use" and rv["op"]["k"] == "const":
+        return [("const", rv["op"]["val"])]
+    if rv["k"] == "use" and rv["op"]["k"] in ("copy", "move") and not [p for p in rv["op"]["place"]["proj"] if p["k"] != "deref"]:
+        return path_origins(body, blocks, rv["op"]["place"]["local"], i, depth + 1)
+    if rv["k"] == "unop" and rv["op"] == "Not" and rv["a"]["k"] in ("copy", "move") and not [p for p in rv["a"]["place"]["proj"] if p["k"] != "deref"]:
+        return [("not", tuple(path_origins(body, blocks, rv["a"]["place"]["local"], i, depth + 1)))]
+    return rv_origins(body, rv, blocks[i], x) or [("expr", blocks[i])]
+
+
+def ret_origins(body, path, start=0):
+    """what the return place holds at the end of the path (path-sensitive through plain copies)"""
+    blocks = [start] + [e.dst for e in path]
+    return path_origins(body, blocks, 0, len(blocks) - 1)
 
 
 def is_const_ret(ret, v):
